@@ -25,14 +25,14 @@ Next ==
         /\ flushSeen' = (flushSeen \/ (stopCalled /\ ~stopReturned))
         /\ UNCHANGED <<cfg, stopCalled, stopReturned>>
      ELSE IF e.e = "stop.call" THEN stopCalled' = TRUE /\ UNCHANGED <<cfg, stopReturned, flushSeen, dead>>
-     \* the Stop call that performed the teardown is about to return (verif hook at the end of Stream.Stop); a concurrent
-     \* second Stop returns early by idempotence and is not the barrier
+     \* the Stop call that performed the teardown is about to return (verif hook at the end of Stream.Stop).  EVERY Stop call is a
+     \* barrier: a concurrent second Stop waits for the teardown (since the repair of the early-returning second Stop), see stop.ret
      ELSE IF e.e = "teardown.done" THEN
         /\ IF cfg.cep = 1 /\ cfg.directed = "afterstop" /\ ~flushSeen THEN Reject("cep_flush_not_delivered_before_stop_returned") ELSE UNCHANGED dead
         /\ stopReturned' = TRUE /\ UNCHANGED <<cfg, stopCalled, flushSeen>>
      ELSE IF e.e = "stop.ret" THEN
         /\ IF e.ms > 6000 THEN Reject("stop_exceeded_its_grace_period") ELSE UNCHANGED dead
-        /\ UNCHANGED <<cfg, stopCalled, stopReturned, flushSeen>>
+        /\ stopReturned' = TRUE /\ UNCHANGED <<cfg, stopCalled, flushSeen>>
      \* directed "rowpanic": a user function panics on some rows; the rows after them must still be processed
      ELSE IF e.e = "rowpanic" THEN
         /\ IF e.got < e.want THEN Reject("rows_after_a_panicking_row_not_processed") ELSE UNCHANGED dead
